@@ -28,7 +28,7 @@ func c11runtime(c *core.Ctx, r *core.Report) {
 			continue
 		}
 		r.Analysed("internal/pointer." + name)
-		for _, ii := range core.InlinedInstrs(c, fn, 2, func(ins ssa.Instruction) bool {
+		for _, ii := range core.InlinedInstrs(c, fn, c.Depth(2), func(ins ssa.Instruction) bool {
 			call, ok := ins.(*ssa.Call)
 			if !ok {
 				return false
@@ -52,7 +52,7 @@ func c11runtime(c *core.Ctx, r *core.Report) {
 			}
 		}
 		// count exact comparisons (non-vacuity)
-		for _, ii := range core.InlinedInstrs(c, fn, 2, func(ins ssa.Instruction) bool {
+		for _, ii := range core.InlinedInstrs(c, fn, c.Depth(2), func(ins ssa.Instruction) bool {
 			bo, ok := ins.(*ssa.BinOp)
 			return ok && bo.Op.String() == "=="
 		}) {
